@@ -294,7 +294,7 @@ def explore9(cfg: dict) -> dict:
 
 def configs(tier: str):
     out = []
-    Ls = (0, 1, 2, 3) if tier == 'quick' else (0, 1, 2, 3, 4)
+    Ls = (0, 1, 2, 3) if tier == 'quick' else (0, 1, 2, 3, 4, 5, 6)
     operands = [('scalar', k) for k in ('float', 'int', 'bool', 'str')]
     operands += [('seq', 1, k) for k in ('float', 'int', 'bool')] + [('seq', 2, 'float'), ('seq', 2, 'int'), ('seq', 1, 'float', 'tuple'),
                                                                          ('seq', 1, 'int', 'range')]
@@ -365,7 +365,7 @@ def main() -> int:
         rep, configs(tier), [],
         functions=['fsic.core.containers.VectorContainer.add_variable', '__setattr__', '__setitem__', 'replace_values', 'values (getter/setter)',
                    'add_attribute', 'strict', 'fsic.core.interfaces.ModelInterface.add_variable / values / size'],
-        bounds={'span_length': f"0..{3 if tier == 'quick' else 4} (concrete: len(span) must be an int)", 'operand_dimensions': 'd0, d1: ALL non-negative integers',
+        bounds={'span_length': f"0..{3 if tier == 'quick' else 6} (concrete: len(span) must be an int)", 'operand_dimensions': 'd0, d1: ALL non-negative integers',
                 'operands': 'scalar float/int/bool/str; flat and rectangular nested list/tuple/range; ndarray of rank 0..2; dtypes float/int/bool(/str)',
                 'pre_state': 'any state satisfying the invariant (one inductive step covers every history)', 'containers': ['VectorContainer', 'BaseModel']},
         outside=['ragged nested lists, structured dtypes', 'BaseLinker (same container class)', "a length-1 ndarray that NumPy broadcasts is not required to raise ('cannot fit' only where unambiguous)",
